@@ -91,3 +91,71 @@ impl<T: DeepCopy + RoundTrip + TypeHash + AlignHash> RoundTrip for Box<[T]> {
     }
 }
 //@endrequires
+
+// =========================================================================
+// String (impls/string.rs): written as the sequence of its UTF-8 bytes
+// =========================================================================
+
+/// std: the bytes of a string
+pub assume_specification[ String::as_bytes ](s: &String) -> (r: &[u8])
+    ensures r@ == str_bytes(*s);
+
+//@item epserde/src/impls/string.rs props=C01,C07,C13 name=String::SerializeInner <<impl SerializeInner for String {>>
+//@  replace <<ser::Result>> <<SResult>>
+//@  body_prefix
+//@|    open spec fn enc(&self, pos: nat) -> Seq<u8> { enc_seq_zero::<u8>(str_bytes(*self), pos) }
+//@  sub <<fn _serialize_inner(&self, backend: &mut impl WriteWithNames) -> ser::Result<()> {>>
+//@  impl_arg
+//@  ret r
+//@end
+
+// ---- round trips of zero-copy sequences and strings (C01) -------------------------------
+// stated as lemmas over the two contracts (not as RoundTrip instances: Rust's coherence
+// rules do not let Vec<T> have one instance per copy kind without a third helper trait)
+
+/// the memory image of n elements of T occupies n * size_of::<T>() bytes
+pub axiom fn axiom_image_len<T>()
+    ensures forall|vs: Seq<T>| #[trigger] image_seq::<T>(vs).len() == vs.len() * vstd::layout::size_of::<T>();
+
+/// decoding the written image of a zero-copy sequence, with anything after it, gives the
+/// sequence back and consumes exactly the encoding - for every element type, length, offset
+pub proof fn lemma_rt_seq_zero<T: MaxSizeOf>(vs: Seq<T>, pos: nat, rest: Seq<u8>)
+    requires vs.len() <= usize::MAX, pad_spec((pos + 8) as int, T::unit() as int) >= 0,
+    ensures parse_seq_zero::<T>(enc_seq_zero::<T>(vs, pos) + rest, pos) == PR::Val(vs, enc_seq_zero::<T>(vs, pos).len()),
+{
+    axiom_ne_bytes();
+    axiom_image_len::<T>();
+    axiom_zc_image::<T>();
+    let head = usize_bytes(vs.len() as usize);
+    let pad = pad_spec((pos + 8) as int, T::unit() as int) as nat;
+    let gap = zeros(pad);
+    let img = image_seq::<T>(vs);
+    let s = enc_seq_zero::<T>(vs, pos) + rest;
+    assert(pad_spec(pos as int + 8, T::unit() as int) == pad_spec((pos + 8) as int, T::unit() as int));
+    assert(s =~= head + (gap + (img + rest)));
+    assert(s.take(8) =~= head);
+    assert(s.skip(8) =~= gap + (img + rest));
+    assert(s.skip(8).skip(pad as int) =~= img + rest);
+    assert(s.skip(8).skip(pad as int).take(img.len() as int) =~= img);
+    assert(enc_seq_zero::<T>(vs, pos).len() == 8 + pad + img.len());
+}
+
+//@requires Vec::SerializeHelper<Zero>
+pub proof fn lemma_rt_vec_zero<T: ZeroCopy + SerializeInner + DeserializeInner + TypeHash + AlignHash>(v: Vec<T>, pos: nat, rest: Seq<u8>)
+    requires pad_spec((pos + 8) as int, T::unit() as int) >= 0,
+    ensures <Vec<T> as DeserializeInner>::parse(v.enc(pos) + rest, pos) == PR::Val(v, v.enc(pos).len()),
+{
+    axiom_vec_of::<T>();
+    assert(v@.len() == v.len() as nat);
+    lemma_rt_seq_zero::<T>(v@, pos, rest);
+}
+//@endrequires
+
+//@requires String::SerializeInner
+impl RoundTrip for String {
+    proof fn lemma_rt(&self, pos: nat, rest: Seq<u8>) {
+        axiom_str_bytes();
+        lemma_rt_seq_zero::<u8>(str_bytes(*self), pos, rest);
+    }
+}
+//@endrequires
